@@ -64,6 +64,7 @@ func (e *Env) C(i int) bool            { k := fmt.Sprintf("C%d", i); e.Evs = app
 func (e *Env) L(i int) []struct{}      { k := fmt.Sprintf("L%d", i); e.Evs = append(e.Evs, k); return make([]struct{}, e.Lv[k]) }
 func (e *Env) S() string               { e.Evs = append(e.Evs, "S"); return e.Sv }
 func (e *Env) True() bool              { return true }
+func (e *Env) ER(i int, raw string) string { e.Evs = append(e.Evs, fmt.Sprintf("E%d", i)); return exprValues[i] }
 func (e *Env) G()                      { e.Evs = append(e.Evs, "G") }
 func (e *Env) GS(s string)             { e.Evs = append(e.Evs, "G") }
 func (e *Env) K(i int) string          { e.Evs = append(e.Evs, fmt.Sprintf("K%d", i)); return fmt.Sprintf("cls%d", i) }
